@@ -552,6 +552,35 @@ impl Property for C14 {
                 refs.push(r);
             }
         }
+        // sometimes the second reference is a twin of the first: same vertex and face counts, same
+        // bounding box, different surface (every face re-wound, or one vertex moved inside the box)
+        if refs.len() >= 2 && rng.chance(0.3) {
+            let mut twin = refs[0].clone();
+            if rng.chance(0.5) {
+                for f in twin.f.iter_mut() {
+                    f.swap(1, 2);
+                }
+            } else if twin.v.len() > 4 {
+                let (mut lo, mut hi) = ([f64::INFINITY; 3], [f64::NEG_INFINITY; 3]);
+                for p in &twin.v {
+                    for k in 0..3 {
+                        lo[k] = lo[k].min(p[k]);
+                        hi[k] = hi[k].max(p[k]);
+                    }
+                }
+                // move a vertex that is not extreme in any coordinate, staying inside the box
+                if let Some(i) = (0..twin.v.len()).find(|&i| (0..3).all(|k| twin.v[i][k] > lo[k] && twin.v[i][k] < hi[k])) {
+                    for k in 0..3 {
+                        twin.v[i][k] = rng.uniform(lo[k], hi[k]);
+                    }
+                }
+            }
+            if nondegenerate(&twin) {
+                let last = refs.len() - 1;
+                refs[last] = twin;
+                label.push_str("+twin-reference");
+            }
+        }
         let nf = mesh.f.len();
         let start = match rng.below(4) {
             0 => Start::None,
